@@ -59,7 +59,7 @@ add(
 HIST = ("Histories are generated as plain data (lattice plug-in engine configuration: 2-7 interfaces, sh/wf moves, cap, 1..n-1 workers, "
         "single- and multi-engine layouts, delete_old, seeds, zero-swap probability; 1-3 process lifetimes with generated completion orders, "
         "clean stops and kills; restarted lifetimes may ask for fewer additional steps than workers and may run on another worker count; lambda_-1 variant of [0-], "
-        "translated copies of the system with the cap / lambda_0 / lambda_-1 on 0.0, companion files kept via keep_traj_fnames) and executed by the real scheduler()/REPEX_state/run_md/PathStorage in forked children behind a "
+        "translated copies of the system with the cap / lambda_0 / lambda_-1 on 0.0, companion files kept via keep_traj_fnames, QuanTIS zero swaps, screen / pattern reporting options) and executed by the real scheduler()/REPEX_state/run_md/PathStorage in forked children behind a "
         "deterministic runner that owns the completion order; a reference model kept by the harness is compared after every event. Sampled. ")
 ENUM = ("In addition small systems (3-5 ensembles, 1-3 workers, sh-only / wf / zero-swap move sets) are explored exhaustively in memory: every "
         "scheduler draw (scripted rgen.choice/random), every completion order and every synthesised move outcome (reject / accept with each "
